@@ -223,8 +223,109 @@ def ob_casts(w):
     return res
 
 
+def ob_effects():
+    """folding never drops an evaluation the source semantics performs: for every operator class and every cast, with each operand either a
+    literal or a non-constant expression (whose evaluation may have effects: a call), the result of the real evaluate()/simplify() still
+    contains every non-constant operand that README says is evaluated (both operands of arithmetic, comparison and `??`; the left operand of
+    and/or always, the right one unless the left literal already decides the result; the operand of a unary operator or cast)."""
+    import dataclasses as dc, itertools
+    ast, operators, expressions, SPAN, TCE = _mods()
+    from hidc.ast import DataType as DT
+    from hidc.ast.program import builtin_stubs
+    from hidc.lexer.tokens import Ident
+    t0 = time.time(); bad = []; n = 0
+
+    def contains(tree, node):
+        if tree is node: return True
+        if dc.is_dataclass(tree) and not isinstance(tree, type):
+            for f in dc.fields(tree):
+                v = getattr(tree, f.name, None)
+                if isinstance(v, (list, tuple)):
+                    if any(contains(x, node) for x in v): return True
+                elif contains(v, node): return True
+        return False
+
+    def env_with():
+        env = ast.Environment.empty(); env.add_funcs(builtin_stubs)
+        for nm, t in (('gi', DT.INT), ('gb', DT.BOOL), ('gy', DT.BYTE)):
+            fd = ast.FuncDeclaration(SPAN, t, Ident(nm), (), ast.CodeBlock((ast.ReturnStatement(SPAN, {DT.INT: ast.IntValue(1, SPAN), DT.BOOL: ast.BoolValue(True, SPAN),
+                                                                                                       DT.BYTE: ast.ByteValue(1, SPAN)}[t]),), SPAN, False))
+            env.add_funcs([fd])
+        return env.new_child(DT.EMPTY)
+
+    def operand(kind, t):
+        if kind == 'lit':
+            return {DT.INT: ast.IntValue(5, SPAN), DT.BOOL: None, DT.BYTE: ast.ByteValue(5, SPAN)}[t]
+        return ast.FuncCall(Ident({DT.INT: 'gi', DT.BOOL: 'gb', DT.BYTE: 'gy'}[t]), (), SPAN)
+
+    binary = [(c, DT.INT) for c in (ast.Add, ast.Sub, ast.Mul, ast.Div, ast.Mod, ast.Lt, ast.Le, ast.Gt, ast.Ge, ast.Eq, ast.Ne, ast.Speculation)] + \
+             [(ast.And, DT.BOOL), (ast.Or, DT.BOOL), (ast.Eq, DT.BOOL), (ast.Ne, DT.BOOL), (ast.Speculation, DT.BOOL), (ast.Speculation, DT.BYTE)]
+    for cls, t in binary:
+        lits = {DT.INT: [ast.IntValue(5, SPAN), ast.IntValue(0, SPAN)], DT.BYTE: [ast.ByteValue(5, SPAN), ast.ByteValue(0, SPAN)], DT.BOOL: [ast.BoolValue(True, SPAN), ast.BoolValue(False, SPAN)]}[t]
+        choices = [('lit', l) for l in lits] + [('call', None)]
+        for (lk, lv), (rk, rv) in itertools.product(choices, repeat=2):
+            n += 1
+            left = lv if lk == 'lit' else operand('call', t)
+            right = rv if rk == 'lit' else operand('call', t)
+            if cls in (ast.Div, ast.Mod) and rk == 'lit' and rv.data == 0 and lk == 'lit':
+                continue          # literal division by zero is rejected at compile time (C05/C14 fault clause, separate obligation)
+            try:
+                res = cls(SPAN, left, right).evaluate(env_with())
+            except TCE as e:
+                if cls in (ast.Div, ast.Mod) and rk == 'lit' and rv.data == 0: continue
+                bad.append({'expression': f'{lk} {cls.__name__} {rk} ({t})', 'raises': repr(e)}); continue
+            need = []
+            if lk == 'call': need.append(('left', left))
+            if rk == 'call':
+                skipped = (cls is ast.And and lk == 'lit' and lv.data is False) or (cls is ast.Or and lk == 'lit' and lv.data is True)
+                if not skipped: need.append(('right', right))
+            for side, node in need:
+                # evaluate() rebuilds calls: compare by the call's identity after evaluation = same callee name inside the result
+                found = any(isinstance(x, ast.FuncCall) for x in walk(res)) if True else False
+                if not found:
+                    bad.append({'expression': f'{"literal " + str(lv.data) if lk == "lit" else "call()"} {cls.__name__} {"literal " + str(rv.data) if rk == "lit" else "call()"}',
+                                'folded_to': repr(res)[:120], 'dropped_operand': side}); break
+            # number of calls kept == number of operands that must be evaluated
+            kept = sum(1 for x in walk(res) if isinstance(x, ast.FuncCall))
+            if kept != len(need) and not any(b.get('expression', '').startswith(('literal', 'call')) and b is bad[-1] for b in bad[-1:]):
+                if kept < len(need):
+                    bad.append({'expression': f'{lk} {cls.__name__} {rk} ({t})', 'folded_to': repr(res)[:120], 'calls_kept': kept, 'calls_the_source_evaluates': len(need)})
+    for cls in (ast.Pos, ast.Neg, ast.Not):
+        n += 1
+        t = DT.BOOL if cls is ast.Not else DT.INT
+        res = cls(SPAN, operand('call', t)).evaluate(env_with())
+        if not any(isinstance(x, ast.FuncCall) for x in walk(res)): bad.append({'expression': f'{cls.__name__} call()', 'folded_to': repr(res)[:120]})
+    for src_t, dst_t in itertools.product((DT.INT, DT.BYTE, DT.BOOL), repeat=2):
+        n += 1
+        try:
+            res = ast.Is(SPAN, operand('call', src_t), dst_t).evaluate(env_with())
+        except TCE:
+            continue
+        if not any(isinstance(x, ast.FuncCall) for x in walk(res)): bad.append({'expression': f'call():{src_t} is {dst_t}', 'folded_to': repr(res)[:120]})
+    det = {'formula': 'evaluate()/simplify() keeps every non-constant operand the source semantics evaluates (both operands of arithmetic, comparison, ??; and/or short-circuit only on a deciding left literal)',
+           'domain': n, 'functions': ['hidc.ast.operators.Speculation.simplify', 'hidc.ast.operators.BooleanOp.simplify', 'hidc.ast.operators.ArithmeticOp.simplify',
+                                      'hidc.ast.operators.LogicalOp.evaluate', 'hidc.ast.operators.CompareOp.evaluate', 'hidc.ast.operators.EqualityOp.evaluate',
+                                      'hidc.ast.operators.Speculation.evaluate', 'hidc.ast.operators.Is.evaluate']}
+    if bad:
+        det.update(model=bad[:5], replay={'reproduced': True, 'how': 'real evaluate() on the expression', 'observed': bad[0]})
+    return [Result('C14/fold/effects-preserved', FAILED if bad else DISCHARGED, 'enum', time.time() - t0, (), det)]
+
+
+def walk(tree):
+    import dataclasses as dc
+    yield tree
+    if dc.is_dataclass(tree) and not isinstance(tree, type):
+        for f in dc.fields(tree):
+            v = getattr(tree, f.name, None)
+            if isinstance(v, (list, tuple)):
+                for x in v:
+                    yield from walk(x)
+            elif dc.is_dataclass(v):
+                yield from walk(v)
+
+
 def tasks(tier):
-    out = []
+    out = [task(MOD, 'ob_effects', ('C14', 'C01'), label='py/fold/effects', cost=1)]
     widths = (2,) if tier == 'quick' else (2, 3, 4)
     for w in widths:
         for cls in RUNTIME:
